@@ -8,7 +8,10 @@
 pub struct StreamId(pub u8);
 #[derive(Clone, Copy, Debug, PartialEq, Eq)]
 pub struct Uuid(pub u8);
-pub struct AppendResultLite { pub stream_versions: HashMap<StreamId, u64> }
+pub type PartitionId = u16;
+pub struct AppendResultLite { pub stream_versions: HashMap<StreamId, u64>, pub first_partition_sequence: u64, pub last_partition_sequence: u64 }
+/// the request: only the field the response construction reads
+pub struct EMAppend { pub partition_key: Uuid }
 /// D4: the list of (event id, timestamp, stream) triples and the reply's event list are fixed-capacity array models
 pub struct Triples { pub items: [Option<(Uuid, u64, StreamId)>; 3], pub lo: usize, pub hi: usize }
 impl Iterator for Triples { type Item = (Uuid, u64, StreamId); fn next(&mut self) -> Option<Self::Item> { if self.lo < self.hi { self.lo += 1; self.items[self.lo - 1].take() } else { None } } }
@@ -22,7 +25,10 @@ impl<T> Vec<T> {
 impl<T> FromIterator<T> for Vec<T> { fn from_iter<I: IntoIterator<Item = T>>(it: I) -> Self { let mut v = Vec { slots: [const { None }; 3], n: 0 }; for x in it { assert!(v.n < 3, "model capacity"); v.slots[v.n] = Some(x); v.n += 1; } v } }
 
 //@item EventInfo
+//@item EMAppendResp
+impl EMAppend {
 //@item emappend_versions_slice
+}
 
 #[cfg(kani)]
 mod verif {
@@ -48,7 +54,12 @@ mod verif {
             if n > 1 { Some((Uuid(1), 11, StreamId(s[1]))) } else { None },
             if n > 2 { Some((Uuid(2), 12, StreamId(s[2]))) } else { None },
         ];
-        let events = emappend_versions_slice(AppendResultLite { stream_versions: sv }, Triples { items, lo: 0, hi: n });
+        kani::cover!(n == 3 && k0 == 2 && l0 == 1, "reachable: two events of a new stream among three");
+        let (fs, ls): (u64, u64) = (kani::any(), kani::any());
+        let req = EMAppend { partition_key: Uuid(42) };
+        let resp = match req.emappend_versions_slice(AppendResultLite { stream_versions: sv, first_partition_sequence: fs, last_partition_sequence: ls }, Triples { items, lo: 0, hi: n }, 5) { Ok(Some(r)) => r, _ => { assert!(false, "a successful append is answered with the EMAPPEND response"); return; } };
+        assert!(resp.partition_key == Uuid(42) && resp.partition_id == 5 && resp.first_partition_sequence == fs && resp.last_partition_sequence == ls, "partition key, id and the sequence range of the append result");
+        let events = resp.events;
         assert!(events.n == n, "one response entry per event, in request order");
         let mut seen0 = 0u64;
         let mut seen1 = 0u64;
